@@ -199,7 +199,7 @@ public:
       if (!ta.empty()) OS << ",\"targs\":" << jstr(ta);
       std::string ca = classTargs(FD->getDeclContext());
       if (!ca.empty()) OS << ",\"cargs\":" << jstr(ca);
-      OS << ",\"key\":" << jstr(fnKey(FD));
+      OS << ",\"key\":" << jstr(fnKey(FD)) << ",\"csig\":" << jstr(sigOf(FD));
       if (auto *MD = dyn_cast<CXXMethodDecl>(FD)) {
         if (MD->isConst()) OS << ",\"cm\":1";
         if (MD->isVirtual()) OS << ",\"virt\":1";
@@ -314,9 +314,10 @@ public:
     OS << "]";
   }
 
-  void dumpStmt(const Stmt *S) {
+
+  static const Stmt *unwrap(const Stmt *S) {
     // transparent wrappers are skipped to keep the trees small and rule code simple
-    while (true) {
+    while (S) {
       if (auto *E = dyn_cast<ExprWithCleanups>(S)) { S = E->getSubExpr(); continue; }
       if (auto *E = dyn_cast<MaterializeTemporaryExpr>(S)) { S = E->getSubExpr(); continue; }
       if (auto *E = dyn_cast<CXXBindTemporaryExpr>(S)) { S = E->getSubExpr(); continue; }
@@ -326,6 +327,12 @@ public:
       if (auto *E = dyn_cast<SubstNonTypeTemplateParmExpr>(S)) { S = E->getReplacement(); continue; }
       break;
     }
+    return S;
+  }
+
+  void dumpStmt(const Stmt *S) {
+    // transparent wrappers are skipped to keep the trees small and rule code simple
+    S = unwrap(S);
     OS << "{\"k\":" << jstr(S->getStmtClassName()) << ",\"id\":" << sid(S) << ",\"l\":" << lineOf(S->getBeginLoc());
     if (auto *E = dyn_cast<Expr>(S)) {
       OS << ",\"t\":" << jstr(typeStr(E->getType()));
@@ -521,7 +528,7 @@ public:
         if (auto St = El.getAs<CFGStmt>()) {
           const Stmt *S = St->getStmt();
           auto it = stmtIds.find(S);
-          if (it == stmtIds.end()) continue;
+          if (it == stmtIds.end()) continue; // wrapper nodes: their sub-expression is its own element
           if (!first) OS << ",";
           first = false;
           OS << it->second;
@@ -539,15 +546,7 @@ public:
         OS << ",\"termk\":" << jstr(T->getStmtClassName());
       }
       if (const Stmt *C = B->getTerminatorCondition(false)) {
-        // strip the same transparent wrappers as dumpStmt
-        const Stmt *S = C;
-        while (true) {
-          if (auto *E = dyn_cast<ExprWithCleanups>(S)) { S = E->getSubExpr(); continue; }
-          if (auto *E = dyn_cast<MaterializeTemporaryExpr>(S)) { S = E->getSubExpr(); continue; }
-          if (auto *E = dyn_cast<CXXBindTemporaryExpr>(S)) { S = E->getSubExpr(); continue; }
-          if (auto *E = dyn_cast<ConstantExpr>(S)) { S = E->getSubExpr(); continue; }
-          break;
-        }
+        const Stmt *S = unwrap(C);
         auto it = stmtIds.find(S);
         OS << ",\"cond\":" << (it != stmtIds.end() ? (int)it->second : -1);
       }
